@@ -17,6 +17,8 @@ const MALFORMED: &[(&str, &str, bool)] = &[
     ("unterminated-string", "\"abc", true),
     ("unterminated-string-sq", "'abc", true),
     ("unterminated-string-escaped-quote", "\"ab\\\"", true),
+    ("unterminated-string-sq-escaped-quote", "'ab\\'", true),
+    ("unterminated-string-sq-escaped-quote-include", "include 'ab\\';", true),
     ("unterminated-bitstring", "\"0101", true),
     ("unterminated-bitstring-underscores", "\"0__1", true),
     ("unterminated-bitstring-newline", "\"01\n", true),
